@@ -163,7 +163,7 @@ def rule_tc_pure(cx, tier):
     # speaks about checks that pass, so only the closure of compare_value_type is constrained for re-entrancy
     pure_closure = cx.cg.closure_from({roots[1].name})
     r.analysed = {"closure_size_run_assert_type": len(closure), "closure_size_compare_value_type": len(pure_closure)}
-    r.floor("call closure of compare_value_type", len(pure_closure), 5)
+    r.floor("call closure of compare_value_type", len(pure_closure), 3)
     for name in sorted(pure_closure):
         f = cx.F.fns[name]
         r.instances += 1
@@ -266,6 +266,6 @@ def rule_tc_hint_sibling(cx, tier):
             r.add(Finding("R-TC-HINT-SIBLING", fn.qual, "ignored-hint-never-read",
                           "this routine reads the type hint of `Node::Id` but never that of `Node::Ignored`: a typed "
                           "ignored binding (`_: T`, `key as _: T`) is accepted whatever the value's type", fn.file, fn.line))
-    r.floor("routines that read the type hint of Node::Id", subjects, 8)
+    r.floor("routines that read the type hint of Node::Id", subjects, 6)
     r.analysed = {"routines": subjects}
     return r
